@@ -43,6 +43,10 @@ class Klass:
         self.client_fields = None     # fields callbacks may change (default: all)
         self.open_methods = {}        # name -> OpenFn
         self.attr_hooks = {}
+        self.attr_store_hooks = {}
+        # instances are always true (the class defines neither __bool__ nor __len__)
+        self.default_truthiness = bool(qual) and qual.startswith('desper.') and \
+            not qual.endswith('Processor')
         self.sort = usort(sort_name)
 
     def find_attr_hook(self, attr):
@@ -84,7 +88,8 @@ class Contract:
     def __init__(self, qual, params=None, requires=None, ensures=None, raises=None,
                  modifies=None, returns=None, inline_ok=False, props=(), note='',
                  ghost_pre=None, ghost_post=None, open_effect=False, covers=None,
-                 implicit_ok=(), rely=None, ghost_results=None, log_invocation=None):
+                 implicit_ok=(), rely=None, ghost_results=None, log_invocation=None,
+                 closure_params=None):
         self.qual = qual
         self.params = dict(params or {})
         self.requires = list((requires or {}).items()) if isinstance(requires, dict) \
@@ -100,6 +105,7 @@ class Contract:
         self.rely = rely
         self.ghost_results = dict(ghost_results or {})
         self.log_invocation = log_invocation
+        self.closure_params = dict(closure_params or {})
 
 
 def _clauses(c):
@@ -560,7 +566,17 @@ class Spec:
         return None
 
     def bitor_hook(self, X, a, b, node):
+        for h in getattr(self, 'bitor_hooks', []):
+            r = h(X, a, b, node)
+            if r is not None:
+                return r
         return None
+
+    def inplace_or_hook(self, X, cur, rhs, node):
+        for h in getattr(self, 'inplace_or_hooks', []):
+            if h(X, cur, rhs, node):
+                return True
+        return False
 
     def symstr_method(self, X, c, attr, args, kw, node):
         X.unsupported('method %s of symbolic string' % attr, node)
@@ -972,7 +988,11 @@ class FunctionRun:
         X.assume_fresh_ids = getattr(ct, 'assume_fresh_ids', False)
         cls = getattr(fn, '_cls', None)
         clsq = cls._qual if cls is not None else None
-        fr = Frame(m, cls=clsq, fn=fn)
+        outer = None
+        if ct.closure_params:
+            # free variables of a nested function: symbolic values in an enclosing frame
+            outer = Frame(m)
+        fr = Frame(m, parent=outer, cls=clsq, fn=fn)
         a = fn.args
         names = [p.arg for p in a.posonlyargs + a.args] + ([a.vararg.arg] if a.vararg else []) \
             + [p.arg for p in a.kwonlyargs] + ([a.kwarg.arg] if a.kwarg else [])
@@ -992,6 +1012,10 @@ class FunctionRun:
             if k.startswith('$'):       # ghost parameters
                 env[k[1:]] = X.fresh(T, 'gp_' + k[1:]) if isinstance(T, Type) else T(X, k[1:])
         fr.vars.update({n: env[n] for n in names})
+        for cn, CT in ct.closure_params.items():
+            v = CT(X, cn) if (callable(CT) and not isinstance(CT, Type)) else X.fresh(CT, 'cv_' + cn)
+            outer.vars[cn] = v
+            env[cn] = v
         if 'self' in env and isinstance(env['self'], ZV) and is_usort(env['self'].t.sort()):
             X.assume(env['self'].t != none_of(env['self'].t.sort()))
         for g in getattr(spec, 'ghost_decls', {}):
@@ -1080,7 +1104,11 @@ class FunctionRun:
         try:
             X.cur_node = fn
             for name, text, role in ct.ensures:
-                self.check_clause(X, '%s:%s' % (short, name), text, env2, m, role, 'ensures')
+                try:
+                    self.check_clause(X, '%s:%s' % (short, name), text, env2, m, role, 'ensures')
+                except PathEnd:
+                    # never drop obligations silently
+                    raise SpecError('%s: path pruned while evaluating postcondition %s' % (short, name))
             self.check_frame(X, ct, env, snap, short)
             for pc_ in getattr(ct, 'path_checks', []):
                 pc_(X, short)
